@@ -79,6 +79,18 @@ Fixpoint wfe (e : exp) : Prop :=
   | FNamed n x => wf_name n /\ wfe x /\ isfield x = false
   | FKey k x => wfe k /\ isfield k = false /\ wfe x /\ isfield x = false
   end.
+(* a well-formed expression holds no long-bracket string: the brackets of an index or key never need their blanks *)
+Lemma bstr_wfe : forall k, wfe k -> bstr k = false.
+Proof.
+  induction k; intros W; cbn [bstr]; try reflexivity.
+  - destruct W.
+  - destruct W as (_ & Wl & _). apply IHk1. exact Wl.
+  - destruct W as (Wx & _). apply IHk. exact Wx.
+Qed.
+Lemma brk_wfe_index d k : wfe k -> brk (bstr k) (pexp d k) = kw "[" :: pexp d k ++ [kw "]"].
+Proof. intros W. rewrite (bstr_wfe k W). reflexivity. Qed.
+Lemma brk_wfe_key d k rest : wfe k -> brk (bstr k) (pexp d k) ++ rest = kw "[" :: pexp d k ++ kw "]" :: rest.
+Proof. intros W. rewrite (bstr_wfe k W). cbn [brk app]. rewrite <- app_assoc. reflexivity. Qed.
 Fixpoint wfl (l : list exp) (fld : bool) : Prop := match l with [] => True | x :: r => (wfe x /\ isfield x = fld) /\ wfl r fld end.
 Lemma wfl_Forall l fld : wfl l fld -> Forall (fun x => wfe x /\ isfield x = fld) l.
 Proof. induction l as [|x r IH]; cbn; [constructor|]. intros [A B]. constructor; [exact A|apply IH; exact B]. Qed.
@@ -99,7 +111,7 @@ Qed.
 Lemma pexp_ne d e : pexp d e <> [].
 Proof.
   revert d. induction e; intros d; cbn [Fmt0.pexp]; try discriminate; try (destruct (pexp d e) eqn:E; [exfalso; apply (IHe d); exact E|discriminate]);
-    try (destruct (pexp d e1) eqn:E; [exfalso; apply (IHe1 d); exact E|discriminate]).
+    try (destruct (pexp d e1) eqn:E; [exfalso; apply (IHe1 d); exact E|discriminate]); try (unfold brk; destruct (bstr e1); discriminate).
   - destruct u; discriminate.
   - destruct fs; discriminate.
   - destruct fs; discriminate.
@@ -122,6 +134,7 @@ Proof.
   - destruct fs; reflexivity.
   - destruct W as (W & _). apply IHe. exact W.
   - destruct W as (W & _). destruct (wf_name_hd n W) as (c & r & E & _). subst. reflexivity.
+  - unfold brk. destruct (bstr e1); reflexivity.
   - destruct fs; reflexivity.
   - destruct W as (W & _). apply IHe. exact W.
 Qed.
@@ -241,7 +254,7 @@ Proof.
   - constructor; [exact W|constructor].
   - destruct W.
   - destruct W as (W & _ & N). apply Forall_app. split; [apply IHe; exact W|]. constructor; [apply wf_kw_sym; reflexivity|]. constructor; [exact N|constructor].
-  - destruct W as (W1 & _ & W2 & _). apply Forall_app. split; [apply IHe1; exact W1|]. constructor; [apply wf_kw_sym; reflexivity|].
+  - destruct W as (W1 & _ & W2 & _). apply Forall_app. split; [apply IHe1; exact W1|]. rewrite (brk_wfe_index d e2 W2). constructor; [apply wf_kw_sym; reflexivity|].
     apply Forall_app. split; [apply IHe2; exact W2|]. constructor; [apply wf_kw_sym; reflexivity|constructor].
   - destruct W as (W1 & _ & W2). apply Forall_app. split; [apply IHe; exact W1|]. apply wf_pargs.
     apply wf_commas. apply Forall_map. apply wfl_Forall in W2. rewrite Forall_forall in *. intros x Hx. apply H; [exact Hx|]. apply (W2 x Hx).
@@ -260,7 +273,7 @@ Proof.
     apply wf_commas. apply Forall_map. destruct W as [W _]. change (wfl (f :: fs) true) in W. apply wfl_Forall in W. rewrite Forall_forall in *. intros x Hx. apply H; [exact Hx|]. apply (W x Hx).
   - destruct W as (W & _). apply IHe. exact W.
   - destruct W as (N & W & _). constructor; [exact N|]. constructor; [apply wf_sp|]. constructor; [apply wf_kw_sym; reflexivity|]. constructor; [apply wf_sp|apply IHe; exact W].
-  - destruct W as (W1 & _ & W2 & _). constructor; [apply wf_kw_sym; reflexivity|]. apply Forall_app. split; [apply IHe1; exact W1|].
+  - destruct W as (W1 & _ & W2 & _). rewrite (brk_wfe_key d e1 _ W1). constructor; [apply wf_kw_sym; reflexivity|]. apply Forall_app. split; [apply IHe1; exact W1|].
     constructor; [apply wf_kw_sym; reflexivity|]. constructor; [apply wf_sp|]. constructor; [apply wf_kw_sym; reflexivity|]. constructor; [apply wf_sp|apply IHe2; exact W2].
   - (* a table over several lines *) destruct fs as [|f fs]; [repeat constructor; apply wf_kw_sym; reflexivity|].
     change (Forall wf_tok (kw "{" :: eol cf :: Fmt0Proof.tlines cf d (f :: fs) ++ indent cf d ++ [kw "}"])).
@@ -429,7 +442,7 @@ Proof.
       * destruct (wf_name_hd n N) as (c & r & E & I). subst n. destruct (start_facts c I) as (A & B & _).
         change (LexAdj.dot_follow (Some c) = true). unfold LexAdj.dot_follow, LexAdj.ne, Lex.eqc. cbn beta iota. rewrite A, B. reflexivity.
       * rewrite adj_cons, andb_true_r. cbn [safe nextc]. apply (okn_word _ _ K).
-  - (* p[k] *) destruct W as (W1 & P & W2 & F). rewrite adj_app. apply andb_true_iff. split.
+  - (* p[k] *) destruct W as (W1 & P & W2 & F). rewrite (brk_wfe_index d e2 W2). rewrite adj_app. apply andb_true_iff. split.
     + apply IHe1; [exact W1|]. apply okn_of_clop; [exact P|reflexivity].
     + rewrite adj_cons. apply andb_true_iff. split.
       * rewrite nextc_app_ne by apply pexp_ne. rewrite (nextc_pexp e2 d None W2).
@@ -478,7 +491,7 @@ Proof.
     rewrite adj_cons. apply andb_true_iff. split; [reflexivity|]. rewrite adj_cons. apply andb_true_iff. split; [reflexivity|].
     rewrite adj_cons. apply andb_true_iff. split; [reflexivity|]. rewrite adj_cons. apply andb_true_iff. split; [rewrite (nextc_pexp e d nx W); apply safe_sp; apply fc_nb; exact W|].
     apply IHe; [exact W|apply okn_of_clo; exact C].
-  - (* keyed field *) destruct W as (W1 & F1 & W2 & F2). assert (C : clo nx = true) by (eapply okn_clo; [|exact K]; reflexivity).
+  - (* keyed field *) destruct W as (W1 & F1 & W2 & F2). rewrite (brk_wfe_key d e1 _ W1). assert (C : clo nx = true) by (eapply okn_clo; [|exact K]; reflexivity).
     rewrite adj_cons. apply andb_true_iff. split.
     + rewrite nextc_app_ne by apply pexp_ne. rewrite (nextc_pexp e1 d None W1). destruct (good_safe_facts _ (fc_good e1 W1 F1)) as (A & B & _).
       change (LexAdj.ne "[" (Some (fc e1)) && LexAdj.ne "=" (Some (fc e1)) = true). rewrite A, B. reflexivity.
